@@ -191,7 +191,22 @@ var (
 
 // classifyRuntimeError returns "" for a checked condition of the statement's
 // list and otherwise a signature for the internal fault.
+var reInstr = regexp.MustCompile(`Error occurred at instruction \d+ \{(\w+),`)
+
 func classifyRuntimeError(msg string) string {
+	where := ""
+	if m := reInstr.FindStringSubmatch(msg); m != nil {
+		switch m[1] {
+		case "iset", "inc", "dec":
+			where = "@int-store"
+		case "fset":
+			where = "@float-store"
+		case "sset":
+			where = "@string-store"
+		default:
+			where = "@" + m[1]
+		}
+	}
 	first := strings.SplitN(msg, "\n", 2)[0]
 	first = strings.TrimPrefix(first, "+")
 	for _, re := range c04Allowed {
@@ -212,7 +227,7 @@ func classifyRuntimeError(msg string) string {
 			s = "panic: " + reQuoted.ReplaceAllString(first[i+2:], "_")
 		}
 	}
-	return "vm-fault: " + s
+	return "vm-fault" + where + ": " + s
 }
 
 type c04Res struct {
@@ -342,6 +357,7 @@ func TestC04(t *testing.T) {
 		}
 		feats := gen.AllFeatures()
 		feats.MixedWrites, feats.StringNumberCompare, feats.NonBoolCond, feats.Unary, feats.TimeBuiltins = true, true, true, true, true
+		feats.BoolInArith = true
 		live17 := st.IsLive("C04-1")
 		if live17 {
 			feats.NoFloatIntoInt = true
